@@ -111,6 +111,12 @@ func init() {
 		rng := unhx(c.A["rng"])
 		msg := bytes.Join(pieces, nil)
 		out, left, err := implScSeal(c.A["signer"], c.A["boxes"], c.A["syms"], pieces, rng, c.A["oneshot"] == "1")
+		if f := retainedChanged(); f != nil {
+			fs = append(fs, *f)
+		}
+		if err == nil && c.A["oneshot"] == "1" {
+			retain("SigncryptSeal", out)
+		}
 		got := "err " + errClass(err)
 		if err == nil {
 			got = fmt.Sprintf("ok %s %d", hx(out), left)
@@ -206,6 +212,28 @@ func init() {
 			}
 		}
 		_, keys, ids := parseSyms(c.A["syms"])
+		// a holder of a box secret key opens the message whatever its resolver says about the symmetric recipients:
+		// a resolver that knows none of the identifiers (and says so with an error), one that answers with the wrong
+		// number of keys, one that holds a DIFFERENT key for every symmetric identifier of this message
+		if bsk := unblist(c.A["bsk"]); len(bsk) > 0 {
+			r := &hRing{signers: [][]byte{signerPk}}
+			r.keys = append(r.keys, boxSecretFromBytes(bsk[0]))
+			wrong := make([][]byte, len(ids))
+			for i := range ids {
+				wrong[i] = bytes.Repeat([]byte{0x5a}, 32)
+			}
+			for _, rv := range []struct {
+				what string
+				res  saltpack.SymmetricKeyResolver
+			}{{"a resolver returning an error", oddResolver{mode: 0}}, {"a resolver returning one key too many", oddResolver{mode: 1}},
+				{"a resolver holding other keys for the symmetric identifiers", hResolver{ids: ids, keys: wrong}}} {
+				_, pt, e := saltpack.SigncryptOpen(out, r, rv.res)
+				if e != nil || !bytes.Equal(pt, msg) {
+					fs = append(fs, Failure{Kind: "oracle", Key: "sc-box-holder-refused-because-of-resolver", Desc: fmt.Sprintf("holder of box recipient key 0 with %s: err %v, %d bytes (the same holder with no resolver opens the message)", rv.what, e, len(pt))})
+					break
+				}
+			}
+		}
 		for i := range keys {
 			// resolver that resolves only identifier i; and one that resolves a random subset containing i
 			check(fmt.Sprintf("symmetric recipient %d (single)", i), &hRing{}, hResolver{ids: [][]byte{ids[i]}, keys: [][]byte{keys[i]}})
@@ -309,6 +337,16 @@ func init() {
 		}
 		o := implScOpen(ring, res, input, bufsize)
 		got := o.String()
+		// the same stream pulled the way many callers do (a fixed-size prefix, then io.Copy): same outcome
+		for _, k := range []int{1, 16, 1 << 20} {
+			consumePattern = k
+			o2 := implScOpen(ring, res, input, bufsize)
+			consumePattern = 0
+			if o2.String() != got {
+				fs = append(fs, Failure{Kind: "oracle", Key: "sc-open-result-depends-on-read-pattern", Desc: fmt.Sprintf("read loop: %.150s | %d-byte prefix then io.Copy: %.150s", got, k, o2.String())})
+				break
+			}
+		}
 		m := strings.Join(h.rn.Call("sc_open", c.A["keys"], c.A["signers"], c.A["resolver"], hx(input)), " ")
 		if strings.Contains(m, "Unmodelled") {
 			h.res.Unmodelled++
